@@ -1,12 +1,158 @@
 import CTM.Drive.Util
+import CTM.Model.Election
 open Lean
 
 namespace CTM.Drive.Election
-open CTM CTM.Drive
+open CTM CTM.Drive CTM.Numeric CTM.Election
 
-/-- ops of this module (stub: none yet) -/
-def handle : Handler := fun op _inp =>
+def jRats (xs : List Rat) : Json := jList jRat xs
+
+def jDrawErr : DrawErr → String
+  | .negativeSample => "negativeSample"
+  | .sampleTooLarge => "sampleTooLarge"
+
+def jTallyErr : TallyErr → String
+  | .draw e => jDrawErr e
+  | .indexOutOfRange => "indexOutOfRange"
+  | .noReference => "noReference"
+
+def jChooseErr : ChooseErr → String
+  | .indexError => "indexError"
+  | .zeroIterations => "zeroIterations"
+
+def ratMatrix (j : Json) : R (List (List Rat)) := asList ratList j
+
+def jRunner (r : Runner) : Json :=
+  jObj [("type", jNat r.type), ("valid", jBool r.valid), ("avgCorr", jRat r.avgCorr),
+        ("prob", jRat r.prob)]
+
+def jTriple (t : List Nat × List Rat × List Rat) : Json :=
+  jObj [("assignment", jNats t.1), ("correlation", jRats t.2.1), ("probability", jRats t.2.2)]
+
+def jChoice (c : Choice) : Json :=
+  jObj [("winner", jNat c.winner), ("prob", jRat c.prob), ("avgCorr", jRat c.avgCorr),
+        ("runners", jList jRunner c.runners), ("kept", jTriple (keepRunners c.runners))]
+
+def parseLevelRec (j : Json) : R LevelRec := do
+  return { assignment := ← asNat (← field j "assignment"),
+           prob := ← asRat (← field j "prob"),
+           avgCorr := ← asOption asRat (fieldD j "avgCorr" Json.null),
+           runnerAssignment := ← natList (fieldD j "runnerAssignment" (Json.arr #[])),
+           runnerCorrelation := ← ratList (fieldD j "runnerCorrelation" (Json.arr #[])),
+           runnerProbability := ← ratList (fieldD j "runnerProbability" (Json.arr #[])) }
+
+def parseOutRec (j : Json) : R OutRec := do
+  let rj := fieldD j "runners" Json.null
+  let runners ← if rj.isNull then pure none else do
+    pure (some (← natList (← field rj "assignment"), ← ratList (← field rj "correlation"),
+                ← ratList (← field rj "probability")))
+  return { assignment := ← asNat (← field j "assignment"),
+           prob := ← asRat (← field j "prob"),
+           avgCorr := ← asOption asRat (fieldD j "avgCorr" Json.null),
+           aggregate := ← asRat (← field j "aggregate"),
+           runners := runners,
+           directlyAssigned := ← asBool (← field j "directlyAssigned") }
+
+def jOutRec (r : OutRec) : Json :=
+  jObj [("assignment", jNat r.assignment), ("prob", jRat r.prob),
+        ("avgCorr", jOpt jRat r.avgCorr), ("aggregate", jRat r.aggregate),
+        ("runners", jOpt jTriple r.runners), ("directlyAssigned", jBool r.directlyAssigned)]
+
+def jIter (refs : List (List Rat)) (x : List Rat) (s : List Nat) : Json :=
+  match tallyIter refs x s with
+  | .error e => jObj [("err", jStr (jTallyErr e))]
+  | .ok (i, q) =>
+    jObj [("idx", jNat i), ("ssq", jRat q),
+          ("scores", jRats ((refs.map (pick s)).map (fun m => corrSsq m (pick s x))))]
+
+def lookup3 (tbl : List (Nat × Nat × Nat)) (cl c : Nat) : Option Nat :=
+  (tbl.find? (fun e => e.1 == cl && e.2.1 == c)).map (·.2.2)
+
+def asTriple (j : Json) : R (Nat × Nat × Nat) := do
+  match ← asArr j with
+  | [a, b, c] => return (← asNat a, ← asNat b, ← asNat c)
+  | _ => .error "triple expected"
+
+def handle : Handler := fun op inp =>
   match op with
+  | "election.round" => some do
+      let q ← asRat (← field inp "q")
+      return jInt (roundHalfEven q)
+  | "election.bootstrapSize" => some do
+      let q ← asRat (← field inp "flProd")
+      let n ← asNat (← field inp "n")
+      return match drawSize q n with
+        | .ok k => jObj [("ok", jNat k), ("raw", jInt (bootstrapSize q n))]
+        | .error e => jObj [("err", jStr (jDrawErr e)), ("raw", jInt (bootstrapSize q n))]
+  | "election.subsetOk" => some do
+      let n ← asNat (← field inp "n")
+      let k ← asNat (← field inp "size")
+      let ss ← asList natList (← field inp "subsets")
+      return jList (fun s => jBool (subsetOk n k s)) ss
+  | "election.corr" => some do
+      -- signed squared correlation matrix: refs x queries
+      let refs ← ratMatrix (← field inp "refs")
+      let xs ← ratMatrix (← field inp "xs")
+      return jList (fun x =>
+        jObj [("scores", jRats (refs.map (fun m => corrSsq m x))),
+              ("nearest", match nearestLeaf refs x with
+                          | none => Json.null
+                          | some (i, _) => jNat i)]) xs
+  | "election.cellVotes" => some do
+      -- every bootstrap iteration of one node for a list of cells
+      let refs ← ratMatrix (← field inp "refs")
+      let xs ← ratMatrix (← field inp "xs")
+      let ss ← asList natList (← field inp "subsets")
+      return jList (fun x => jList (jIter refs x) ss) xs
+  | "election.tallyCell" => some do
+      let n ← asNat (← field inp "nLeaves")
+      let rows ← asList (asPair asNat asRat) (← field inp "rows")
+      let (v, c) := tallyCell n rows
+      return jObj [("votes", jNats v), ("corrSum", jRats c)]
+  | "election.aggregate" => some do
+      let types ← natList (← field inp "types")
+      let votes ← natList (← field inp "votes")
+      let corr ← ratList (← field inp "corr")
+      let (v, c, t) := aggregateVotes types votes corr
+      return jObj [("votes", jNats v), ("corr", jRats c), ("types", jNats t)]
+  | "election.columns" => some do
+      let types ← natList (← field inp "types")
+      let votes ← natList (← field inp "votes")
+      let corr ← ratList (← field inp "corr")
+      let (v, c, t) := columns types votes corr
+      return jObj [("votes", jNats v), ("corr", jRats c), ("types", jNats t),
+                   ("aggregated", jBool (hasDupTypes types))]
+  | "election.choose" => some do
+      let types ← natList (← field inp "types")
+      let votes ← natList (← field inp "votes")
+      let corr ← ratList (← field inp "corr")
+      let iters ← asNat (← field inp "iters")
+      let nA ← asNat (← field inp "nAssign")
+      let order ← natList (← field inp "order")
+      let (v, _, _) := columns types votes corr
+      let valid := decide (ValidOrder v order)
+      return match chooseCell types votes corr iters nA order with
+        | .ok c => jObj [("ok", jChoice c), ("validOrder", jBool valid)]
+        | .error e => jObj [("err", jStr (jChooseErr e)), ("validOrder", jBool valid)]
+  | "election.finishCell" => some do
+      let recs ← asList parseLevelRec (← field inp "recs")
+      return jList jOutRec (finishCell recs)
+  | "election.inferLevels" => some do
+      let hier ← natList (← field inp "hier")
+      let tbl ← asList asTriple (← field inp "parentOf")
+      let cell ← asList (asPair asNat parseOutRec) (← field inp "cell")
+      return match inferLevels (lookup3 tbl) hier cell with
+        | .ok c => jObj [("ok", jList (jPair jNat jOutRec) c)]
+        | .error _ => jObj [("err", jStr "keyError")]
+  | "election.assemble" => some do
+      let kids ← natList (← field inp "kids")
+      let tbl ← asList (asPair asNat natList) (← field inp "leaves")
+      let leavesOf := fun c => ((tbl.find? (fun e => e.1 == c)).map (·.2)).getD []
+      let (rows, types) := assembleRows kids leavesOf
+      return jObj [("rows", jNats rows), ("types", jNats types)]
+  | "election.cpm" => some do
+      let xs ← ratList (← field inp "row")
+      return jRats (cpm xs)
   | _ => none
 
 end CTM.Drive.Election
